@@ -617,7 +617,7 @@ def r_choice_decisions(rule, root=None):
         n = 0
         try:
             for a in ivs:
-                for b in ivs[::3]:
+                for b in (ivs if getattr(getattr(rule, "ctx", None), "tier", "quick") == "thorough" else ivs[::3]):
                     got = _decide(fn, {"self": a, rn: b})
                     n += 1
                     if got != w(a, b):
